@@ -130,3 +130,23 @@ void __gcov_flush(void);
 #else
 #define gcov_flush()
 #endif
+
+
+/* Verification hooks (off unless KJN_LBZIP2_VERIF is defined; see /verif/DESIGN.md).
+   A checking harness may scale format constants down and may define
+   VERIF_POINT(id, arg) before including a source file to observe or cut
+   execution at marked points.  Without the guard all of this is empty. */
+#ifdef KJN_LBZIP2_VERIF
+# ifdef VERIF_MAX_BLOCK_SIZE
+#  undef MAX_BLOCK_SIZE
+#  define MAX_BLOCK_SIZE VERIF_MAX_BLOCK_SIZE
+# endif
+# ifdef VERIF_MAX_CODE_LENGTH
+#  undef MAX_CODE_LENGTH
+#  define MAX_CODE_LENGTH VERIF_MAX_CODE_LENGTH
+# endif
+#endif
+#if !defined(KJN_LBZIP2_VERIF) || !defined(VERIF_POINT)
+# undef VERIF_POINT
+# define VERIF_POINT(id, arg) ((void)0)
+#endif
